@@ -1,10 +1,22 @@
 #!/bin/sh
-# Build the framework from files on disk only (offline): all Lean property modules + the native driver.
-# Go harnesses are built by each check from /repo's current working tree (build overlay, tag `verif`).
+# Build the framework from files on disk only (offline): regenerate the T-gen files from /repo, then build all
+# Lean property modules + the native driver. Go harnesses are built by each check from /repo's current working
+# tree (build overlay, tag `verif`).
 set -e
 cd "$(dirname "$0")"
-# T-gen: regenerate lean/Obao/Gen from /repo (the checks do this again on every run)
-python3 -c "import sys; sys.path.insert(0, '.'); from lib import core; core.regenerate()"
+# T-gen: every property's pre() step (tools/extract, C01's physical-writer extractor); the checks do this again on every run
+python3 - <<'P'
+import importlib, os, sys
+sys.path.insert(0, ".")
+for f in sorted(os.listdir("props")):
+    if f.startswith("C") and f.endswith(".py"):
+        pid = f[:-3]
+        try:
+            chk = importlib.import_module("props." + pid).CHECK
+            chk.pre({"tier": "quick", "seed": "1", "pid": pid})
+        except Exception as e:                      # a broken tie is reported by the check itself, not by setup
+            print("setup: pre() of %s: %r" % (pid, e))
+P
 cd lean
 mods=""
 for f in Obao/Props/*.lean; do
